@@ -65,6 +65,8 @@ def run_one(prop, base_seed, index, tier, mask, want_raw=False, want_digest=Fals
         elif verdict["divergence"] is not None:
             from . import shrink
             small = shrink.minimise(spec, case, verdict["divergence"], mask, _CACHE)
+            small["unshrunk_ops"] = case["ops"]
+            small["unshrunk_divergence"] = verdict["divergence"]
             out["violation"] = small
         elif want_raw and mask:
             raw = spec.check_raw(case, _CACHE)
